@@ -12,9 +12,24 @@ TRUSTED = ["the declarative language (harness/lang.py, Lean `Lang`) is my readin
 FOREIGN = "zzForeign"
 
 
+_PARENTS = {}
+_CALLS = [0]
+
+
 def suggest(r, parent_name, kids, cand):
     impl.reset()
-    p = Node(parent_name)
+    _CALLS[0] += 1
+    if _CALLS[0] % 2:
+        # the same parent OBJECT asked again after its children were exchanged (an editor keeps one node and one Rule object around):
+        # the answer is a function of the parent's present children
+        key = (id(r), parent_name)
+        p = _PARENTS.get(key)
+        if p is None or p[0] is not r:
+            p = _PARENTS[key] = (r, Node(parent_name))
+        p = p[1]
+        del p.children[:]
+    else:
+        p = Node(parent_name)
     for k in kids:
         c = Node(k); p.children.append(c); c.parent = p
     try:
